@@ -289,7 +289,11 @@ func (r *tcpRig) doNative(q ingReq) ingRes {
 }
 
 func (r *tcpRig) doGateway(q ingReq) ingRes {
-	req, _ := http.NewRequest("POST", "http://"+r.addr+"/", bytes.NewReader(q.body()))
+	var rd io.Reader = bytes.NewReader(q.body())
+	if q.seq%3 == 1 {
+		rd = struct{ io.Reader }{rd} // no Content-Length: the body travels chunked
+	}
+	req, _ := http.NewRequest("POST", "http://"+r.addr+"/", rd)
 	h := req.Header
 	h.Set("X-RPCX-MessageID", strconv.FormatUint(q.seq, 10))
 	h.Set("X-RPCX-MessageType", "0")
